@@ -47,6 +47,9 @@ func (g *G) templateStmt() *lang.Node {
 		return seq(lang.Define(ta, mkf(n("x"), n("y"))), lang.Define(tb, mkf(n("p"), n("q"))),
 			lang.Define(r, lang.Array(lang.Call(lang.Ident(ta), lang.Int(7), lang.Int(2)), lang.Call(lang.Ident(tb), a1, a2))))
 	}
+	if g.chance(60, "tplMapMut") && g.builtinFree("delete") && g.builtinFree("is_undefined") && !g.o.NoMapIter {
+		return g.mapMutationTemplate(n)
+	}
 	if g.chance(90, "tplMixedRec") {
 		return g.mixedRecursionTemplate(n)
 	}
@@ -275,6 +278,66 @@ func (g *G) mixedRecursionTemplate(n func(string) string) *lang.Node {
 	g.declare(&vinfo{name: r, t: TArr, elem: TAny})
 	return seq(lang.Define(f, lang.Func([]string{k, acc}, false, body)),
 		lang.Define(r, lang.Array(lang.Call(lang.Ident(f), lang.Int(0), lang.Int(0)), lang.Call(lang.Ident(f), lang.Int(int64(g.draw(depth+1, "mrStart"))), lang.Int(10)))))
+}
+
+// mapMutationTemplate: a map is iterated, changed (delete, new key, overwrite,
+// both), and iterated again - the second loop must see exactly the map's
+// current keys. Loop bodies only count and add (order-independent).
+func (g *G) mapMutationTemplate(n func(string) string) *lang.Node {
+	g.feat("tpl:map-mutation-between-iterations")
+	m, obs := n("mm"), n("mobs")
+	allKeys := []string{"a", "b", "c", "d"}
+	nk := 2 + g.draw(3, "mmKeys")
+	var vals []*lang.Node
+	for i := 0; i < nk; i++ {
+		vals = append(vals, lang.Int(int64(1+g.draw(9, "mmVal"))))
+	}
+	loop := func(tag string) []*lang.Node {
+		c, sm, k, v := n("mc"+tag), n("ms"+tag), n("mk"+tag), n("mv"+tag)
+		g.declare(&vinfo{name: c, t: TInt})
+		g.declare(&vinfo{name: sm, t: TInt})
+		return []*lang.Node{
+			lang.Define(c, lang.Int(0)), lang.Define(sm, lang.Int(0)),
+			lang.ForIn(k, v, lang.Ident(m), lang.Block(
+				lang.Assign("+=", lang.Ident(c), lang.Int(1)),
+				lang.If(nil, lang.Unary("!", lang.Call(lang.Ident("is_undefined"), lang.Ident(v))), lang.Block(lang.Assign("+=", lang.Ident(sm), lang.Ident(v))), nil))),
+		}
+	}
+	del := func() *lang.Node {
+		return lang.ExprStmt(lang.Call(lang.Ident("delete"), lang.Ident(m), lang.Str(allKeys[g.draw(nk, "mmDel")])))
+	}
+	set := func() *lang.Node {
+		key := append(append([]string{}, allKeys[:nk]...), "e", "f")[g.draw(nk+2, "mmSet")]
+		if g.chance(500, "mmSel") {
+			return lang.Assign("=", lang.Sel(lang.Ident(m), key), g.intLit())
+		}
+		return lang.Assign("=", lang.Index(lang.Ident(m), lang.Str(key)), g.intLit())
+	}
+	stmts := []*lang.Node{lang.Define(m, lang.Map(allKeys[:nk], vals))}
+	stmts = append(stmts, loop("1")...)
+	rounds := 1 + g.draw(2, "mmRounds")
+	for r := 0; r < rounds; r++ {
+		switch g.draw(5, "mmMut") {
+		case 0:
+			stmts = append(stmts, del())
+		case 1:
+			stmts = append(stmts, set())
+		case 2:
+			stmts = append(stmts, del(), set())
+		case 3:
+			stmts = append(stmts, set(), del())
+		default:
+			stmts = append(stmts, del(), del())
+		}
+		stmts = append(stmts, loop(fmt.Sprint(r+2))...)
+	}
+	g.declare(&vinfo{name: m, t: TMap})
+	g.declare(&vinfo{name: obs, t: TInt})
+	stmts = append(stmts, lang.Define(obs, lang.Call(lang.Ident("len"), lang.Ident(m))))
+	if !g.builtinFree("len") {
+		stmts = stmts[:len(stmts)-1]
+	}
+	return seq(stmts...)
 }
 
 // copiedClosureTemplate: a closure updating a captured variable goes through
